@@ -174,7 +174,8 @@ func MakeCase(in PipeIn, workdir string, caseNo int) Case {
 		l, _ := hex.DecodeString(m.Line)
 		l2, _ := hex.DecodeString(m.LineAfter)
 		k, _ := hex.DecodeString(m.Extracted)
-		sorted = append(sorted, fmt.Sprintf("Mt %s %d %s %s %s %s %s", HS(fullName(m)), m.LineNo, RL(l), RL(l2), zlist(m.Indices), zlist(m.IdxAfter), RL(k)))
+		w, _ := hex.DecodeString(m.Wrapped)
+		sorted = append(sorted, fmt.Sprintf("Mt %s %d %s %s %s %s %s %s", HS(fullName(m)), m.LineNo, RL(l), RL(l2), zlist(m.Indices), zlist(m.IdxAfter), RL(k), RL(w)))
 	}
 	for _, m := range res.Matches {
 		order = append(order, fmt.Sprintf("od %s %d", HS(fullName(m)), m.LineNo))
